@@ -212,3 +212,11 @@ CHECKS["C34"] = {
     "level_note": "assumes, as the property does, a broker that enforces keep-alive and drops connections without CONNECT (modelled: 1.5 x KA, 10 s)",
     "design_ref": "3/C34",
 }
+
+CHECKS["C16"] = {
+    "level": "fault_enumeration",
+    "technique": "runtime monitoring: enumerated loss/duplication plans on the in-memory datagram link between the real client library and the real gateway session (simulated broker behind it, virtual time); reference simulation of the retry protocol + wire/handler/broker-ack oracles",
+    "level_text": "For six broker-to-client delivery flows (QoS 1/2 x known topic, REGISTER step, short topic) and RetryCount 1 and 2, every single drop of the first RetryCount+2 occurrences of every datagram of the flow in either direction, duplications, all pairs of those (a quarter of the pairs in the quick tier) and all runs of consecutive losses up to RetryCount+1 are injected. Handler invocations, the acknowledgements reaching the broker and every retransmitted datagram (ID, payload, DUP, spacing, count) are checked against a reference simulation of the retry budget.",
+    "level_note": "faults are addressed by (direction, type, occurrence index); 'within budget' is decided per protocol step (RetryCount+1 transmission attempts each), the reading under which a retry protocol can satisfy the property at all",
+    "design_ref": "3/C16",
+}
